@@ -628,6 +628,70 @@ impl Hist {
 		);
 	}
 
+	/// What the issuer of a paid invoice can send to the PAYER's foreign API: the invoice's id dressed
+	/// up as the reply to a standard send (state Standard2), carrying the issuer's own signature data,
+	/// output and share of the offset. The payer initiated nothing; its stored context is that of a
+	/// payment it has already signed.
+	fn relabelled_invoice_to_payer(&mut self, f: usize) {
+		let (issuer, payer, inv1, inv2, inv3, num) = {
+			let fl = &self.flights[f];
+			match (fl.payer, fl.s2.clone(), fl.fin.clone()) {
+				(Some(p), Some(s2), Some(fin)) if p != fl.sender => (fl.sender, p, fl.s1.clone(), s2, fin, fl.num),
+				_ => return,
+			}
+		};
+		let _ = issuer;
+		let payer_entry = match inv2.participant_data.get(0) {
+			Some(p) => p.clone(),
+			None => return,
+		};
+		let issuer_entry = match inv3.participant_data.iter().find(|p| {
+			p.public_nonce != payer_entry.public_nonce || p.public_blind_excess != payer_entry.public_blind_excess
+		}) {
+			Some(p) => p.clone(),
+			None => return,
+		};
+		let (tx2, tx3) = match (inv2.tx.as_ref(), inv3.tx.as_ref()) {
+			(Some(a), Some(b)) => (a, b),
+			_ => return,
+		};
+		let issuer_output = match tx3.outputs().iter().find(|o| !tx2.outputs().iter().any(|p| p.commitment() == o.commitment())) {
+			Some(o) => o.clone(),
+			None => return,
+		};
+		let kc = ExtKeychain::from_random_seed(true).unwrap();
+		let issuer_offset = match kc.blind_sum(
+			&grin_keychain::BlindSum::new()
+				.add_blinding_factor(inv3.offset.clone())
+				.sub_blinding_factor(inv2.offset.clone())
+				.add_blinding_factor(inv1.offset.clone()),
+		) {
+			Ok(o) => o,
+			Err(_) => return,
+		};
+		let mut forged = Slate::blank(2, false);
+		forged.id = inv2.id;
+		forged.state = SlateState::Standard2;
+		forged.version_info = inv2.version_info.clone();
+		forged.participant_data = vec![issuer_entry];
+		forged.offset = issuer_offset;
+		forged.tx = Some(Slate::empty_transaction().with_output(issuer_output));
+		let tip = self.s.node.height();
+		// does the payer's stored context belong to a transaction it initiated?
+		let initiated = self.s.with(payer, |b, m| {
+			b.get_private_context(m, forged.id.as_bytes()).map(|c| c.calculated_excess.is_none()).unwrap_or(true)
+		});
+		let r = guarded(|| self.s.with(payer, |b, m| foreign::finalize_tx(b, m, &forged, false)));
+		let rc = rc_of(&r);
+		self.record(
+			payer,
+			json!({"k": "finalize", "slate": num, "ttl": forged.ttl_cutoff_height, "tip": tip,
+				"state_ok": initiated, "crypto_ok": true}),
+			rc,
+			json!({"tx_inputs": null, "foreign": true, "forged": true, "relabelled_invoice": true}),
+		);
+	}
+
 	fn pick_flight(&mut self) -> Option<usize> {
 		if self.flights.is_empty() {
 			None
@@ -825,6 +889,7 @@ impl Hist {
 	}
 	fn cancel(&mut self, i: usize) {
 		// by log id, by slate id of a flight, or something that does not exist
+		let forced = self.force_cancel.is_some();
 		let (id, slate): (Option<u32>, Option<Uuid>) = match self.p.below(5) {
 			_ if self.force_cancel.is_some() => (None, self.force_cancel.take()),
 			0 | 1 => {
@@ -837,6 +902,21 @@ impl Hist {
 			},
 			_ => (None, Some(Uuid::from_bytes([9u8; 16]))),
 		};
+		// one cancel in fourteen names no transaction at all
+		let (id, slate) = if !forced && !self.force_direct && self.p.chance(1, 14) { (None, None) } else { (id, slate) };
+		if id.is_none() && slate.is_none() {
+			let r = guarded(|| {
+				self.s.with(i, |b, m| {
+					let pk = b.parent_key_id();
+					itx::cancel_tx(b, m, &pk, None, None)
+				})
+			});
+			let rc = rc_of(&r);
+			// (a call that must be refused before it touches the wallet)
+			self.record(i, json!({"k": "cancel", "id": null, "slate": null, "outage": true, "names_nothing": true, "rc": [1, 9]}),
+				rc, json!({}));
+			return;
+		}
 		let snum = slate.map(|u| self.slate_nums.get(&u).cloned().unwrap_or(999_999));
 		let via_owner = (self.force_direct || self.p.chance(1, 2)) && self.s.node.height() < 100;
 		// one owner-level cancel in three is the first call to meet the node since the last change of
@@ -1191,6 +1271,11 @@ impl Hist {
 		self.finalize_invoice(f);
 		if self.flights[f].fin.is_none() {
 			return;
+		}
+		// one time in two the issuer then tries the payer's public listener with the invoice dressed up
+		// as the reply to a standard send
+		if self.p.coin() {
+			self.relabelled_invoice_to_payer(f);
 		}
 		self.post(f);
 		let miner = self.p.below(2) as usize;
